@@ -660,6 +660,7 @@ def rule_R7(toks: List[Tok], k: int, rep: Report, fn: str) -> List[Tok]:
     m_enum = m is not None
     mw = None
     ms = None
+    mc = None
     pos = toks[kw].pos
     idx = f"idx__{k}"
     pre = f"let mut {idx}: usize = 0;"
@@ -672,10 +673,18 @@ def rule_R7(toks: List[Tok], k: int, rep: Report, fn: str) -> List[Tok]:
         mt = re.fullmatch(r"\(([\w,]+)\) ?in ?&(\w+)", txt)
         mw = re.fullmatch(r"(\w+) in (\w+)\.windows\((\w+)\)", txt)
         ms = re.fullmatch(r"(\w+) in (\w+)\.into_iter\(\)\.skip\((\w+)\)", txt)
+        mc = re.fullmatch(r"&(\w+) in ([\w.]+\(\))", txt)
         if mt:
             # for (a, _, c) in &V: a tuple pattern against `&T` binds references to the fields (default binding modes), as does `let (..) = &V[i]`
             x, v = "(" + mt.group(1).replace(",", ", ") + ")", mt.group(2)
             bind = f"let {x} = &{v}[{idx}];"
+        elif mc:
+            # R25: for &X in RECV.method(): the call returns a slice (rustc checks that in the generated unit); it is evaluated once,
+            # as the `for` does, and its elements are visited in order by value
+            x, call = mc.group(1), mc.group(2)
+            v = f"it_c__{k}"
+            bind = f"let {x} = {v}[{idx}];"
+            pre = f"let {v} = {call}; let mut {idx}: usize = 0;"
         elif ms:
             # R24: for X in V.into_iter().skip(N): the elements from position N on, by value (Copy: checked by rustc in the generated unit;
             # V is not used after the loop in /repo, since into_iter consumes it)
@@ -704,6 +713,8 @@ def rule_R7(toks: List[Tok], k: int, rep: Report, fn: str) -> List[Tok]:
     rep.rule("R23 for-in-windows(n) loop -> index while loop" if (not m_enum and mw) else "R7 for-in-iter loop -> index while loop")
     if not m_enum and ms:
         rep.rule("R24 for-in-into_iter().skip(n) loop -> index while loop starting at n")
+    if not m_enum and mc:
+        rep.rule("R25 for-&x-in-call() loop over a returned slice -> index while loop")
     return toks[:kw] + new + toks[bc + 1:]
 
 
